@@ -36,6 +36,7 @@ class SrtParagraph:
   """SRT paragraph definition class"""
 
   _EOL_SEQ_RE = re.compile(r"\n{2,}")
+  _TAG_RE = re.compile(r'</?[biu]>|<font color="[^"]*">|</font>')
 
   def __init__(self, identifier: int):
     self._id: int = identifier
@@ -65,8 +66,9 @@ class SrtParagraph:
     return self._end
 
   def is_only_whitespace(self):
-    """Returns whether the paragraph tex contains only whitespace or is empty"""
-    return len(self._text) == 0 or self._text.isspace()
+    """Returns whether the paragraph text, without its tags, contains only whitespace or is empty"""
+    text = SrtParagraph._TAG_RE.sub("", self._text)
+    return len(text) == 0 or text.isspace()
 
   def normalize_eol(self):
     """Remove line breaks at the beginning and end of the paragraph, and replace
